@@ -2,8 +2,11 @@
    in-place origin coordinate of rpylib/grid/grid.py.  Numbers are Q (floats minus rounding), indices nat.
 
    numpy array  -> list Q           axis[k] -> nthq xs k         Coordinates (mutable cell) -> field g_o
-   `middle`     -> a parameter `mid : Q -> Q -> Q` (CTMCGrid.middle is `amid`, the arithmetic mean;
-                   CTMCGridProbabilityStep.middle is a root-found point: covered by the hypotheses on mid) *)
+   `middle`     -> a parameter `mid : Q -> Q -> Q`.  CTMCGrid.middle is `amid`, the arithmetic mean, the only PROVED instance.
+                   CTMCGridProbabilityStep.middle is a root-found point that also reads grid.h (it changes after refine and
+                   middle(x,0) = -h/2 whatever x): the n-level theorems (one stateless `mid`) do not apply to it; the one-step
+                   theorems with hypotheses on the axis at hand (C13_refine_admissible_axis, C03 with two middles) do, provided
+                   the root lies strictly inside its bracket, which the oracle checks on the implementation. *)
 From Coq Require Import ZArith QArith Qabs Qround List Bool Lia.
 From RV Require Import Base.QB.
 Import ListNotations.
@@ -54,7 +57,7 @@ Definition fixed_axis (h : Q) (nb : nat) : list Q * nat :=
 (* CTMCUniformGrid.__init__ (spatial.py:148-164), one axis; l, r = truncation bounds returned by the root search.
    np.linspace is modelled as its mathematical sequence start + i*(stop-start)/(num-1) (num = 1: [start]);
    int(x) of a non-negative float as the floor.  The repaired constructor (fix-grid) raises ValueError unless
-   int(|l|/h) >= 2 and int(r/h) >= 1: None. *)
+   int(|l|/h) >= 2 and int(r/h) >= 2 (both bounds and -h, +h are then states): None. *)
 Definition linspace (a b : Q) (n : nat) : list Q :=
   match n with
   | O => []
@@ -63,7 +66,7 @@ Definition linspace (a b : Q) (n : nat) : list Q :=
   end.
 Definition uniform_axis (l h r : Q) : option (list Q * nat) :=
   let nl := Z.to_nat (Qfloor (Qabs l / h)) in let nr := Z.to_nat (Qfloor (r / h)) in
-  if (nl <? 2)%nat || (nr <? 1)%nat then None else Some (assemble (linspace l (- h) nl) (linspace h r nr)).
+  if (nl <? 2)%nat || (nr <? 2)%nat then None else Some (assemble (linspace l (- h) nl) (linspace h r nr)).
 
 (* CTMCCredit (spatial.py:338-357), one axis; l, r are the truncation bounds returned by the root search.
    The repaired constructor (fix-grid: "CTMCCredit rejects thresholds that make an axis non-monotone")
